@@ -170,7 +170,7 @@ func legDirect(sum *lib.Summary, rng *lib.Rng, distinct map[string]bool) []strin
 	}
 	n := 600
 	if *tier == "thorough" {
-		n = 20000
+		n = 12000
 	}
 	g := &dgen{r: rng}
 	for i := 0; i < n; i++ {
